@@ -362,6 +362,9 @@ def c17(ctx):
 
 def c18(ctx):
     tui_common(ctx, "MonTui_C18.cfg", [("privacy", 240, 6000), ("tui", 80, 2000)])
+    # beyond the property: the lazy reverse-DNS cache behind the hostnames (DnsCache.tla), the real resolver thread in real time
+    ctx.model("mc/MC_DnsCache.tla", "MC_DnsCache.cfg", workers=4)
+    ctx.sim("dns", 6 if ctx.quick() else 48, "conf/ConfDns.tla", "ConfDns.cfg", seed_off=9, package="vt", subcmd="dns", drift_only=True, batch=6)
     ctx.write_evidence("model_checking", "model: Tui.tla - the privacy level stays within off, 0..hop count and moves one step per command in every reachable state; "
                        "implementation: distinct scripted runs of the real event loop and renderers; on every captured frame TLC checks that no address of a responding hop with TTL <= n nor the source address is on screen, that hops above n are on screen when the table is certainly visible, and that expand / contract moved n by exactly one step",
                        assumptions=TUI_ASSUME)
